@@ -43,10 +43,11 @@ def dom(t):
 
 
 def pat(s):
-    return [{"a": 1, "b": 2, "c": 3, "%": 100, "_": 101}[ch] for ch in s]
+    return [{"a": 1, "b": 2, "c": 3, "%": 100, "_": 101, "\\": 102}[ch] for ch in s]
 
 
-PATTERNS = ["a%", "ab%", "b%", "abc%", "c%", "%", "ab", "a_", "a_%", "%b", "a%c", "", "ba%", "ac%", "b_", "aa%"]
+PATTERNS = ["a%", "ab%", "b%", "abc%", "c%", "%", "ab", "a_", "a_%", "%b", "a%c", "", "ba%", "ac%", "b_", "aa%",
+            "a\\%%", "a\\_%", "ab\\", "\\a%", "a\\%", "_", "__%", "c", "abc", "ab_", "%a%"]
 
 
 def atom(rng, cols):
@@ -101,9 +102,158 @@ def atom(rng, cols):
     return bin_(rng.choice(["=", "<>"]), un("not", col(i)), lit(Bv(rng.random() < 0.5)))
 
 
+def same_class_cols(cols, i):
+    return [j + 1 for j, cc in enumerate(cols) if j + 1 != i and cc["ty"] == cols[i - 1]["ty"]]
+
+
+def rand_lit(rng, t, wide=True):
+    c = cls_of(t)
+    if c == "i":
+        return lit(I(rng.choice([-3, -2, -1, 0, 1, 2, 3, 4] if wide else INTS)))
+    if c == "s":
+        return lit(S(rng.randrange(1, len(POOL) + 1)))
+    return lit(Bv(rng.random() < 0.5))
+
+
+def in_atom(rng, cols, i=None, literal_only=False, big=False):
+    """[NOT] IN lists: literals, NULL entries, column references and small expressions; tested expression a column or a small expression"""
+    i = i or rng.randrange(len(cols)) + 1
+    t = cols[i - 1]["ty"]
+    c = cls_of(t)
+    k = rng.choice([1, 2, 2, 3, 4]) if not big else rng.randint(21, 24)
+    items = [rand_lit(rng, t) for _ in range(k)]
+    if not literal_only:
+        r = rng.random()
+        others = same_class_cols(cols, i)
+        if r < 0.45:
+            items.insert(rng.randrange(len(items) + 1), col(rng.choice(others)) if others and rng.random() < 0.7 else col(i))
+        elif r < 0.6 and c == "i":
+            items.append(bin_("+", col(rng.choice(others) if others else i), lit(I(1))))
+        elif r < 0.7 and c == "i":
+            items.append(un("neg", col(rng.choice(others) if others else i)))
+    if rng.random() < 0.15:
+        items.insert(rng.randrange(len(items) + 1), lit(NULL))
+    e = col(i)
+    if not literal_only and c == "i" and rng.random() < 0.12:
+        e = bin_("+", col(i), lit(I(1))) if rng.random() < 0.5 else {"op": "cast", "e": col(i), "to": "l" if t == "i" else "i", "try": False}
+    return {"op": "in", "e": e, "list": items, "neg": rng.random() < 0.45}
+
+
+def eq_term(rng, cols, i=None, ops=("=", "=", "<>")):
+    i = i or rng.randrange(len(cols)) + 1
+    l = rand_lit(rng, cols[i - 1]["ty"], wide=False)
+    f = rng.choice(ops)
+    return bin_(f, col(i), l) if rng.random() < 0.75 else bin_(f, l, col(i))
+
+
+def guar_pred(rng, cols):
+    """shapes LiteralGuarantee::analyze reasons about: conjunctions of col =/<> literal and [NOT] IN, disjunctions of equalities,
+    disjunctions of conjunctions, and the near misses that must NOT produce a guarantee"""
+    def term(i=None):
+        r = rng.random()
+        if r < 0.45:
+            return eq_term(rng, cols, i)
+        if r < 0.9:
+            return in_atom(rng, cols, i, literal_only=rng.random() < 0.45, big=rng.random() < 0.06)
+        return atom(rng, cols)
+
+    def conj(n, i=None):
+        e = term(i)
+        for _ in range(n - 1):
+            e = bin_("and", e, term(i if rng.random() < 0.6 else None))
+        return e
+    r = rng.random()
+    i = rng.randrange(len(cols)) + 1
+    if r < 0.25:                       # conjunction, often on one column (intersection / invalidation of guarantees)
+        return conj(rng.choice([1, 2, 2, 3]), i if rng.random() < 0.7 else None)
+    if r < 0.5:                        # disjunction of equalities, possibly spoiled by another operator / column / <>
+        ts = [eq_term(rng, cols, i, ops=("=",)) for _ in range(rng.choice([2, 2, 3]))]
+        x = rng.random()
+        if x < 0.2:
+            ts.append(atom(rng, cols))
+        elif x < 0.35:
+            ts.append(eq_term(rng, cols, None))
+        elif x < 0.45:
+            ts.append(in_atom(rng, cols, i))
+        rng.shuffle(ts)
+        e = ts[0]
+        for t in ts[1:]:
+            e = bin_("or", e, t)
+        return e if rng.random() < 0.6 else bin_("and", e, term())
+    if r < 0.8:                        # (a = 1 AND c = 2) OR (a = 2 AND c IN (..)) ...
+        ts = []
+        for _ in range(rng.choice([2, 2, 3])):
+            parts = [eq_term(rng, cols, j + 1, ops=("=", "=", "=", "<>")) if rng.random() < 0.65 else in_atom(rng, cols, j + 1, literal_only=rng.random() < 0.5)
+                     for j in range(len(cols)) if rng.random() < 0.85]
+            if rng.random() < 0.15:
+                parts.append(eq_term(rng, cols, i))           # the same column twice in a termset
+            if rng.random() < 0.15:
+                parts.append(atom(rng, cols))
+            if not parts:
+                parts = [eq_term(rng, cols, i)]
+            e = parts[0]
+            for q in parts[1:]:
+                e = bin_("and", e, q)
+            ts.append(e)
+        e = ts[0]
+        for t in ts[1:]:
+            e = bin_("or", e, t)
+        return e if rng.random() < 0.7 else bin_("and", e, term())
+    return bin_(rng.choice(["and", "or"]), conj(2), conj(2))
+
+
+def extra_atom(rng, cols):
+    """branches of build_predicate_expression / rewrite_expr_to_prunable the basic atoms do not reach"""
+    i = rng.randrange(len(cols)) + 1
+    t = cols[i - 1]["ty"]
+    c = cls_of(t)
+    r = rng.random()
+    if r < 0.12:
+        return lit(Bv(rng.random() < 0.5))                                   # constant predicates (is_always_true / is_always_false)
+    if r < 0.2:
+        return lit(NULL) if False else bin_("=", lit(I(1)), lit(I(rng.choice([1, 2]))))   # literal op literal
+    if c == "s":
+        if r < 0.5:
+            to = "v" if t == "s" else "s"
+            return bin_(rng.choice(CMPS), {"op": "cast", "e": col(i), "to": to, "try": rng.random() < 0.3}, lit(S(rng.randrange(1, len(POOL) + 1))))
+        if r < 0.75:
+            return in_atom(rng, cols, i)
+        return {"op": "like", "e": col(i) if rng.random() < 0.8 else {"op": "cast", "e": col(i), "to": "v" if t == "s" else "s", "try": False},
+                "pat": pat(rng.choice(PATTERNS)), "neg": rng.random() < 0.5}
+    if c == "i":
+        n = rng.choice([-3, -2, -1, 0, 1, 2, 3, 4])
+        others = same_class_cols(cols, i)
+        if r < 0.35:
+            to = "l" if t == "i" else "i"
+            inner = {"op": "cast", "e": col(i), "to": to, "try": rng.random() < 0.4}
+            if rng.random() < 0.3:
+                inner = un("neg", inner)
+            elif rng.random() < 0.2:
+                inner = {"op": "cast", "e": inner, "to": t, "try": False}
+            return bin_(rng.choice(CMPS + ["isdistinct", "isnotdistinct"]), inner, lit(I(n)))
+        if r < 0.5 and others:
+            return bin_(rng.choice(CMPS), bin_(rng.choice(["+", "-", "*"]), col(i), col(others[0])), lit(I(n)))
+        if r < 0.6:
+            return bin_(rng.choice(CMPS), un("neg", un("neg", col(i))), lit(I(n)))
+        if r < 0.7:
+            return bin_(rng.choice(CMPS), lit(I(n)), un("neg", col(i)))
+        if r < 0.85:
+            return in_atom(rng, cols, i, big=rng.random() < 0.3)
+        return bin_(rng.choice(["isdistinct", "isnotdistinct"]), lit(NULL if rng.random() < 0.3 else I(n)), col(i))
+    # boolean
+    if r < 0.4:
+        return bin_(rng.choice(["isdistinct", "isnotdistinct", "=", "<>"]), un("not", col(i)), lit(Bv(rng.random() < 0.5) if rng.random() < 0.8 else NULL))
+    if r < 0.6:
+        return un("not", un("not", col(i)))
+    if r < 0.8:
+        return in_atom(rng, cols, i)
+    return bin_(rng.choice(["and", "or"]), col(i), un("not", col(i)))
+
+
 def gen_pred(rng, cols, depth):
     if depth == 0 or rng.random() < 0.35:
-        return atom(rng, cols)
+        x = rng.random()
+        return atom(rng, cols) if x < 0.6 else extra_atom(rng, cols) if x < 0.85 else in_atom(rng, cols)
     r = rng.random()
     if r < 0.47:
         return bin_("and", gen_pred(rng, cols, depth - 1), gen_pred(rng, cols, depth - 1))
@@ -127,7 +277,7 @@ def exact_stats(rows, cols):
     return {"cols": st, "rcK": True, "rc": len(rows)}
 
 
-def weaken(rng, stats, cols, level):
+def weaken(rng, stats, cols, level, p_k=0.3):
     """loosen / forget statistics; every result stays valid for the container the exact statistics came from"""
     for i, st in enumerate(stats["cols"]):
         d = dom(cols[i]["ty"])
@@ -140,7 +290,7 @@ def weaken(rng, stats, cols, level):
         for k in ("minK", "maxK", "ncK"):
             if rng.random() < 0.15 * level:
                 st[k] = False
-        if rng.random() < 0.3:       # what a bloom filter / dictionary page knows: a superset of the values present
+        if rng.random() < p_k:       # what a bloom filter / dictionary page knows: a superset of the values present
             ks = {json.dumps(v, sort_keys=True) for v in vals}
             for v in d:
                 if rng.random() < 0.2:
@@ -153,7 +303,7 @@ def weaken(rng, stats, cols, level):
     return stats
 
 
-def free_stats(rng, cols):
+def free_stats(rng, cols, p_k=0.25):
     n = rng.randint(0, 3)
     st = []
     for cdef in cols:
@@ -164,36 +314,52 @@ def free_stats(rng, cols):
         nc = rng.randint(0, n)
         ks = [v for v in d if rng.random() < 0.4] or [d[0]]
         st.append({"minK": rng.random() < 0.8, "min": a, "maxK": rng.random() < 0.8, "max": b, "ncK": rng.random() < 0.8, "nc": nc,
-                   "kK": rng.random() < 0.25, "kset": ks})
+                   "kK": rng.random() < p_k, "kset": ks})
     return {"cols": st, "rcK": rng.random() < 0.85, "rc": n}
 
 
 COLSETS = [[("a", "i")], [("a", "i")], [("s", "s")], [("s", "v")], [("b", "b")], [("a", "l")], [("a", "i"), ("c", "i")], [("a", "i"), ("s", "s")],
-           [("s", "s"), ("b", "b")], [("a", "i"), ("b", "b")], [("s", "v"), ("a", "l")]]
+           [("s", "s"), ("b", "b")], [("a", "i"), ("b", "b")], [("s", "v"), ("a", "l")], [("s", "s"), ("t", "s")], [("a", "i"), ("c", "i")],
+           [("a", "l"), ("c", "l")], [("b", "b"), ("e", "b")]]
 
 
 def gen_cases(ctx, containers_by_tys):
     rng = ctx.rng
-    n = 700 if ctx.quick else 6000
+    n = 900 if ctx.quick else 7000
     cases = []
     for k in range(n):
         cs = rng.choice(COLSETS)
         cols = [{"name": nm, "ty": ty} for nm, ty in cs]
-        pred = gen_pred(rng, cols, rng.choice([0, 1, 1, 2, 2, 3]))
+        family = "guar" if k % 3 == 0 else "general"
+        pred = guar_pred(rng, cols) if family == "guar" else gen_pred(rng, cols, rng.choice([0, 1, 1, 2, 2, 3]))
+        via = "direct" if family == "guar" or rng.random() < 0.7 else rng.choice(["prunable", "file"])
         key = tuple(cls_of(c["ty"]) for c in cols)
         conts = []
         for _ in range(rng.choice([1, 2, 3])):
             pool = containers_by_tys.get(key, [])
             if pool and rng.random() < 0.6:
                 rows = [r[:len(cols)] for r in rng.choice(pool)]
-                st = weaken(rng, exact_stats(rows, cols), cols, rng.choice([0, 1, 1, 2]))
+                st = weaken(rng, exact_stats(rows, cols), cols, rng.choice([0, 1, 1, 2]), 0.75 if family == "guar" else 0.3)
                 st["rows"] = [r + [NULL] * (2 - len(r)) for r in rows]
             else:
-                st = free_stats(rng, cols)
+                st = free_stats(rng, cols, 0.7 if family == "guar" else 0.25)
+            if via != "direct":           # an unknown statistic may be reported as a misleading Inexact value
+                for i, c in enumerate(st["cols"]):
+                    d = dom(cols[i]["ty"])
+                    if not c["minK"]:
+                        c["min"] = rng.choice(d)
+                    if not c["maxK"]:
+                        c["max"] = rng.choice(d)
+                    if not c["ncK"]:
+                        c["nc"] = rng.randint(0, 3)
+                if not st["rcK"]:
+                    st["rc"] = rng.randint(0, 3)
             conts.append(st)
-        absent = {w: [rng.random() < 0.06 for _ in cols] for w in ("min", "max", "nc")}
-        absent["rc"] = rng.random() < 0.06
-        cases.append({"id": k, "cols": cols, "pred": pred, "containers": conts, "absent": absent})
+        p_abs = 0.15 if rng.random() < 0.3 else 0.04
+        absent = {w: [rng.random() < p_abs for _ in cols] for w in ("min", "max", "nc")}
+        absent["rc"] = rng.random() < p_abs
+        cases.append({"id": k, "cols": cols, "pred": pred, "containers": conts, "absent": absent, "family": family, "via": via,
+                      "inexact": rng.random() < 0.6, "simplify": rng.random() < 0.2})
     return cases
 
 
